@@ -99,6 +99,8 @@ void AsmContext::init()
   parsing_ifdef     = 0;
   bytes_per_address = 1;
   in_repeat         = 0;
+  msp430_cpu4       = false;
+  memory.endian     = ENDIAN_LITTLE;
 
   macros.reset();
   def_param_stack_count = 0;
